@@ -181,6 +181,50 @@ class FnResult:
     pre_hyps: list = field(default_factory=list)
 
 
+MUTATORS = {"update", "append", "extend", "insert", "setdefault", "pop", "popitem", "clear", "add", "remove", "discard", "sort", "reverse", "__setitem__", "__delitem__"}
+
+
+def module_state_mutations(repo, relpath, fn_node):
+    """names bound at module level that the function mutates (subscript store/delete, mutating method call, `global` rebinding):
+    such a function keeps state between calls, so its result may depend on the call history"""
+    import os
+
+    tree = ast.parse(open(os.path.join(repo, relpath)).read())
+    module_names = set()
+    for n in tree.body:
+        tg = n.targets if isinstance(n, ast.Assign) else ([n.target] if isinstance(n, (ast.AnnAssign, ast.AugAssign)) else [])
+        for t in tg:
+            for x in ast.walk(t):
+                if isinstance(x, ast.Name):
+                    module_names.add(x.id)
+    local = {a.arg for a in fn_node.args.args + fn_node.args.kwonlyargs + fn_node.args.posonlyargs}
+    globals_declared = set()
+    for n in ast.walk(fn_node):
+        if isinstance(n, ast.Global):
+            globals_declared |= set(n.names)
+    for n in ast.walk(fn_node):
+        tg = n.targets if isinstance(n, ast.Assign) else ([n.target] if isinstance(n, (ast.AnnAssign, ast.AugAssign, ast.For)) else [])
+        for t in tg:
+            for x in ([t] if isinstance(t, ast.Name) else [e for e in ast.walk(t) if isinstance(e, ast.Name) and isinstance(e.ctx, ast.Store)]):
+                if isinstance(x, ast.Name) and x.id not in globals_declared:
+                    local.add(x.id)
+    shared = (module_names - local) | globals_declared
+    out = []
+    for n in ast.walk(fn_node):
+        if isinstance(n, (ast.Assign, ast.AugAssign, ast.AnnAssign, ast.Delete)):
+            tg = n.targets if isinstance(n, (ast.Assign, ast.Delete)) else [n.target]
+            for t in tg:
+                if isinstance(t, ast.Subscript) and isinstance(t.value, ast.Name) and t.value.id in shared:
+                    out.append(f"{t.value.id}[...] {'deleted' if isinstance(n, ast.Delete) else 'assigned'}@{n.lineno}")
+                if isinstance(t, ast.Name) and t.id in globals_declared:
+                    out.append(f"global {t.id} rebound@{n.lineno}")
+                if isinstance(t, ast.Attribute) and isinstance(t.value, ast.Name) and t.value.id in shared and not t.value.id[:1].isupper():
+                    out.append(f"{t.value.id}.{t.attr} assigned@{n.lineno}")
+        if isinstance(n, ast.Call) and isinstance(n.func, ast.Attribute) and n.func.attr in MUTATORS and isinstance(n.func.value, ast.Name) and n.func.value.id in shared:
+            out.append(f"{n.func.value.id}.{n.func.attr}(...)@{n.lineno}")
+    return out
+
+
 def run_contract(repo, c: FnContract) -> FnResult:
     """Symbolically execute the real function against its contract; returns the obligations (not yet discharged)."""
     try:
@@ -211,6 +255,8 @@ def run_contract(repo, c: FnContract) -> FnResult:
                 eng.ob("frame.no_caching_decorator", st, z3.BoolVal(False), node, tag=dname)
             else:
                 raise Unsupported(f"decorator @{ast.unparse(d)[:40]} on {c.qual} is outside the contract language")
+        for mut in module_state_mutations(getattr(c, "repo_root", None) or repo, c.file, node):
+            eng.ob("frame.no_module_state_mutation", st, z3.BoolVal(False), node, tag=mut.split("@")[0])
         outs = eng.run(node.body, st)
         n_ret = 0
         for e, out in outs:
